@@ -34,13 +34,13 @@ example : parseQuoteScalar (([34, 97, 34, 32, 34, 98, 34] : Bytes).take 3) = .ok
 /-- C19 (text lexemes), unquoted: an unquoted scalar cut from a truncated input `d.take k` is a
 prefix of the scalar the whole input yields at that place; it is that very scalar unless it
 reaches the cut (`rest = []`); and no byte after its first is a boundary byte (it never spans a
-delimiter, so it is never merged with its neighbour). -/
-theorem C19_scalar_not_merged (htab : Tables.sseBoundary = Tables.boundaryTab)
-    (d : Bytes) (k : Nat) (s rest : Bytes)
+delimiter, so it is never merged with its neighbour).  (The table identity `sseBoundary = boundaryTab`
+the proof needs is discharged here, `sse_eq_tab`; it is no longer a hypothesis.) -/
+theorem C19_scalar_not_merged (d : Bytes) (k : Nat) (s rest : Bytes)
     (h : splitAtScalar (d.take k) = some (s, rest)) :
     ∃ s' rest', splitAtScalar d = some (s', rest') ∧ s <+: s' ∧ (s = s' ∨ rest = []) ∧
       ∀ i (hi : i < s.length), 0 < i → isBoundary s[i] = false := by
-  rw [splitAtScalar_eq_fallback htab] at h ⊢
+  rw [splitAtScalar_eq_fallback sse_eq_tab] at h ⊢
   simp only [splitAtScalarFallback, splitAtChecked, findFirst_take] at h ⊢
   have hf := findFirst_le isBoundary d
   generalize hfd : findFirst isBoundary d = f at h hf ⊢
@@ -69,6 +69,9 @@ theorem C19_scalar_not_merged (htab : Tables.sseBoundary = Tables.boundaryTab)
       omega
   · simp at h
 
+/-- the hypothesis is satisfiable: `ab=c` cut after `a`. -/
+example : splitAtScalar (([97, 98, 61, 99] : Bytes).take 1) = some ([97], []) := by decide +kernel
+
 /-! ### the whole parser on a truncated input -/
 
 /-- C19 (text tape), step level: one iteration of the main loop that stops at least two bytes
@@ -95,39 +98,80 @@ theorem C19_text_tape_stable (n f fuel : Nat) (st : St) (d : Bytes) (T : List To
     T.take f = st.tape.take f :=
   run_frozen n f fuel st d T b hinv hf h
 
-/-
+/-! ### the split point of a cut, pinned
+
 Full statement (C19, text tape parser): for every input `d` and `k`, if
 `parse (d.take k) = .ok T' b'` and `parse d = .ok T b` then every completed top-level field of T'
 equals the corresponding field of T and at most the last one differs or is absent (with the
 single-level auto-close at EOF accounted for).
 
-Proved below for ALL inputs: the two parses run in lockstep up to the point where the truncated
-one has fewer than two bytes of lookahead left; the tape `C` they share at that point is common to
-both results up to its last token (top level) resp. up to the still open top-level container:
-`T'.take m = C.take m` and `T.take m = (C.take m)` with the positions shifted.  So every top-level
-field completed before that point is identical in T' and T, including its offsets.
-Missing for the full statement: the description of what the truncated parse can still append
-behind `C` with its last (< 2 + current lexeme) bytes — at most the value being cut and the EOF
-auto-close; this tail is covered by the `tcut` correspondence op and its oracle only.
+All statements below are about ONE object that is a function of the input: the state of the main
+loop after exactly `j` iterations (`iter`, Proofs/TextTapeCutTail.lean).  `CutSplit d k T' T j st0 d0`
+says that the truncated run and the full run are both in the state `st0` (the full one with its
+positions shifted by `|d| - k`) after the same `j` iterations, that the truncated run has fewer
+than two bytes of lookahead left after its next iteration, and that the two runs end with `T'` and
+`T` from there.  Nothing in it is chosen freely: `st0`, `d0` are determined by `j`
+(`iter` is a function), `T'` and `T` are determined by `d`, `k` (`C19_text_tape_split_pins`).
 -/
-/-- C19 (text tape), all inputs: the common prefix of the tape of a truncated input and the tape
-of the whole input. -/
-theorem C19_text_tape_common_prefix_partial (d : Bytes) (k : Nat) (T' T : List Tok) (b' b : Bool)
+
+/-- the cursor at the start of the main loop: behind the BOM, if there is one -/
+def afterBom (d : Bytes) : Bytes := if hasBom d = true then d.drop 3 else d
+
+/-- the split point of the cut `k` of `d`: see the section comment. -/
+structure CutSplit (d : Bytes) (k : Nat) (T' T : List Tok) (j : Nat) (st0 : St) (d0 : Bytes) : Prop where
+  /-- the shape invariant of the loop -/
+  inv : StInv st0
+  /-- the TRUNCATED run is in state `st0` with cursor `d0` after exactly `j` iterations -/
+  reach' : iter (d.take k).length j St.init (afterBom (d.take k)) = some (st0, d0)
+  /-- the FULL run is in the same state (positions shifted) after the same `j` iterations, its cursor
+  is `d0` followed by the bytes behind the cut -/
+  reach : iter d.length j St.init (afterBom d) = some (st0.shift (d.length - k), d0 ++ d.drop k)
+  /-- `j` is maximal for the lookahead argument: the next truncated iteration ends the parse or
+  leaves fewer than two bytes -/
+  short : Short (d.take k).length st0 d0
+  /-- the truncated run ends with `T'` from there -/
+  rest' : ∃ fuel b', run (d.take k).length fuel st0 d0 = .ok T' b'
+  /-- the full run ends with `T` from there -/
+  rest : ∃ fuel b, run d.length fuel (st0.shift (d.length - k)) (d0 ++ d.drop k) = .ok T b
+
+/-- a run that ends after `j` more iterations from a state the loop reaches is the parse -/
+theorem parse_of_iter {d : Bytes} {j fuel : Nat} {st0 : St} {d0 : Bytes} {T : List Tok} {b : Bool}
+    (hr : iter d.length j St.init (afterBom d) = some (st0, d0))
+    (h : run d.length fuel st0 d0 = .ok T b) : parse d = .ok T (hasBom d) := by
+  have h1 := run_iter _ j _ _ _ _ hr fuel
+  rw [h] at h1
+  have h2 := run_fuel d.length (fuelFor (afterBom d)) St.init (afterBom d)
+    (by simp [mu, fuelFor, St.init, flag])
+  have h3 := run_det h1 (by simp) rfl h2
+  show (run d.length (fuelFor (afterBom d)) St.init (afterBom d)).withBom (hasBom d) = _
+  rw [← h3]; rfl
+
+/-- C19 (text tape): the split relation is not satisfiable by unrelated tapes — it determines both
+of them: `T'` is the tape of the truncated input and `T` the tape of the whole input. -/
+theorem C19_text_tape_split_pins {d : Bytes} {k : Nat} {T' T : List Tok} {j : Nat} {st0 : St} {d0 : Bytes}
+    (hs : CutSplit d k T' T j st0 d0) :
+    parse (d.take k) = .ok T' (hasBom (d.take k)) ∧ parse d = .ok T (hasBom d) := by
+  obtain ⟨f', b', h'⟩ := hs.rest'
+  obtain ⟨f, b, h⟩ := hs.rest
+  exact ⟨parse_of_iter hs.reach' h', parse_of_iter hs.reach h⟩
+
+/-- C19 (text tape), the split point exists for ALL inputs and ALL cuts: if the truncated input and
+the whole input both parse, the two runs pass through the same state after the same number of
+iterations, and behind it the truncated run has fewer than two bytes of lookahead. -/
+theorem C19_text_tape_split (d : Bytes) (k : Nat) (T' T : List Tok) (b' b : Bool)
     (hk : k ≤ d.length) (hbom : hasBom (d.take k) = hasBom d)
     (h' : parse (d.take k) = .ok T' b') (h : parse d = .ok T b) :
-    ∃ (C : List Tok) (m : Nat), m ≤ C.length ∧
-      T'.take m = C.take m ∧ T.take m = (C.take m).map (Tok.shift (d.length - k)) ∧
-      (C = [] ∨ m + 1 = C.length ∨
-        ∃ mx, C[m]? = some (.array 0 mx) ∨ C[m]? = some (.object 0 mx)) := by
-  -- the two cursors
+    ∃ (j : Nat) (st0 : St) (d0 : Bytes), CutSplit d k T' T j st0 d0 := by
   have hq : (d.drop k).length = d.length - k := by simp
   unfold parse at h' h
   simp only at h' h
+  have hab' : afterBom (d.take k) = (if hasBom d = true then List.drop 3 (d.take k) else d.take k) := by
+    unfold afterBom; rw [hbom]
   rw [hbom] at h'
-  generalize hdp : (if hasBom d = true then List.drop 3 (d.take k) else d.take k) = dp at h'
-  generalize hdd : (if hasBom d = true then List.drop 3 d else d) = dd at h
-  have hsplit : dd = dp ++ d.drop k := by
-    rw [← hdp, ← hdd]
+  rw [← hab'] at h'
+  change (run d.length (fuelFor (afterBom d)) St.init (afterBom d)).withBom (hasBom d) = _ at h
+  have hsplit : afterBom d = afterBom (d.take k) ++ d.drop k := by
+    rw [hab']; unfold afterBom
     split
     · next hb =>
       have hk3 : 3 ≤ k := by
@@ -142,72 +186,72 @@ theorem C19_text_tape_common_prefix_partial (d : Bytes) (k : Nat) (T' T : List T
         · exact hge
       rw [← List.drop_append_of_le_length (by simp; omega), List.take_append_drop]
     · exact (List.take_append_drop k d).symm
-  generalize hrp : run (d.take k).length (fuelFor dp) St.init dp = rp at h'
-  generalize hrd : run d.length (fuelFor dd) St.init dd = rd at h
+  generalize hrp : run (d.take k).length (fuelFor (afterBom (d.take k))) St.init (afterBom (d.take k)) = rp at h'
+  generalize hrd : run d.length (fuelFor (afterBom d)) St.init (afterBom d) = rd at h
   have hrp' : ∃ bp, rp = .ok T' bp := by cases rp <;> simp [Res.withBom] at h'; exact ⟨_, by rw [h'.1]⟩
   have hrd' : ∃ bd, rd = .ok T bd := by cases rd <;> simp [Res.withBom] at h; exact ⟨_, by rw [h.1]⟩
   obtain ⟨bp, rfl⟩ := hrp'
   obtain ⟨bd, rfl⟩ := hrd'
-  -- lockstep
-  obtain ⟨j, st0, d0, fuel0, hinv0, hrun0, _, hlock⟩ :=
-    run_lockstep (d.take k).length d.length (d.drop k) (fuelFor dp) St.init dp _ _ hrp StInv.init
-  have hD : run d.length (fuelFor dd) (st0.shift (d.drop k).length) (d0 ++ d.drop k) = .ok T bd := by
-    have := hlock (fuelFor dd)
-    rw [← hsplit, show St.init.shift (d.drop k).length = St.init from rfl,
-      run_more_fuel _ _ j _ _ _ hrd (by simp)] at this
+  obtain ⟨j, st0, d0, fuel0, hinv0, hit1, hit2, hshort, hrun0⟩ :=
+    iter_lockstep (d.take k).length d.length (d.drop k) _ St.init _ _ _ hrp StInv.init
+  rw [← hsplit, show St.init.shift (d.drop k).length = St.init from rfl, hq] at hit2
+  have hD : run d.length (fuelFor (afterBom d)) (st0.shift (d.length - k)) (d0 ++ d.drop k) = .ok T bd := by
+    have := run_iter _ j _ _ _ _ hit2 (fuelFor (afterBom d))
+    rw [run_more_fuel _ _ j _ _ _ hrd (by simp)] at this
     exact this.symm
-  refine ⟨st0.tape, ?_⟩
+  exact ⟨j, st0, d0, hinv0, hit1, hit2, hshort, ⟨_, _, hrun0⟩, ⟨_, _, hD⟩⟩
+
+theorem frozenLen_nil {st : St} (h : st.tape = []) : frozenLen st = 0 := by
+  unfold frozenLen; rw [h]; split <;> rfl
+
+/-- at ANY split point: the final tokens of the split state (`frozenLen`, a function of the state)
+are common to both tapes. -/
+theorem CutSplit.common_prefix {d : Bytes} {k : Nat} {T' T : List Tok} {j : Nat} {st0 : St} {d0 : Bytes}
+    (hs : CutSplit d k T' T j st0 d0) :
+    T'.take (frozenLen st0) = st0.tape.take (frozenLen st0) ∧
+    T.take (frozenLen st0) = (st0.tape.take (frozenLen st0)).map (Tok.shift (d.length - k)) := by
   by_cases hne : st0.tape = []
-  · exact ⟨0, by simp, by simp, by simp, .inl hne⟩
-  · obtain ⟨f, hf, hf0, hf1⟩ := exists_frozen hinv0 hne
-    have h1 := run_frozen _ f _ _ _ _ _ hinv0 hf hrun0
-    have h2 := run_frozen _ f _ _ _ _ _ (hinv0.shift _) (hf.shift _) hD
-    refine ⟨f, by have := hf.1; omega, h1, ?_, ?_⟩
-    · rw [h2, St.shift_tape, hq, List.map_take]
-    · by_cases hp : st0.parent = 0
-      · exact .inr (.inl (hf0 hp))
-      · exact .inr (.inr (hf1 hp))
+  · rw [frozenLen_nil hne]; simp
+  · obtain ⟨f', b', h'⟩ := hs.rest'
+    obtain ⟨f, b, h⟩ := hs.rest
+    have hf := frozen_frozenLen hs.inv hne
+    have h1 := run_frozen _ _ _ _ _ _ _ hs.inv hf h'
+    have h2 := run_frozen _ _ _ _ _ _ _ (hs.inv.shift _) (hf.shift _) h
+    refine ⟨h1, ?_⟩
+    rw [h2, St.shift_tape, List.map_take]
 
-/-- the hypotheses are satisfiable: `a=b cd=e` cut after `a=b` (both parses succeed, no BOM). -/
-example :
-    let d : Bytes := [97, 61, 98, 32, 99, 100, 61, 101]
-    (∃ T' b', parse (d.take 3) = .ok T' b') ∧ (∃ T b, parse d = .ok T b) ∧ hasBom (d.take 3) = hasBom d :=
-  ⟨⟨[.unquoted ⟨3, [97]⟩, .unquoted ⟨1, [98]⟩], false, by decide +kernel⟩,
-   ⟨[.unquoted ⟨8, [97]⟩, .unquoted ⟨6, [98]⟩, .unquoted ⟨4, [99, 100]⟩, .unquoted ⟨1, [101]⟩], false,
-     by decide +kernel⟩, by decide +kernel⟩
+/-- at ANY split point: the tail behind the split state's tape, and the settled tokens of it. -/
+theorem CutSplit.tail {d : Bytes} {k : Nat} {T' T : List Tok} {j : Nat} {st0 : St} {d0 : Bytes}
+    (hs : CutSplit d k T' T j st0 d0) :
+    st0.tape.length ≤ T'.length ∧ st0.tape.length ≤ T.length ∧ T'.length ≤ st0.tape.length + 6 ∧
+    (∀ i, i + 1 < st0.tape.length → NotOpen st0.tape i →
+      T'[i]? = st0.tape[i]? ∧ T[i]? = (st0.tape[i]?).map (Tok.shift (d.length - k))) := by
+  obtain ⟨f', b', h'⟩ := hs.rest'
+  obtain ⟨f, b, h⟩ := hs.rest
+  refine ⟨run_len_le _ _ _ _ _ _ hs.inv h', ?_, short_tail_sharp hs.short _ _ _ h', ?_⟩
+  · have := run_len_le _ _ _ _ _ _ (hs.inv.shift _) h
+    simpa [St.shift_tape] using this
+  · intro i hi hn
+    refine ⟨run_settled _ _ _ _ _ _ i hs.inv hi hn h', ?_⟩
+    have := run_settled _ _ _ _ _ _ i (hs.inv.shift (d.length - k)) (by simpa [St.shift_tape] using hi)
+      (by simpa [St.shift_tape] using hn.shift (d.length - k)) h
+    rw [this, St.shift_tape, getElem?_shift]
 
-/-
-C19 (text tape), field level.  Full statement: every completed top-level field of the truncated
-parse's tape equals the full parse's, and at most the last field differs or is absent.
-
-Proved for ALL inputs: both tapes are regular bodies (`parse_gr`); the truncated tape is
-`D ++ tail'` and the full tape is `D` (positions shifted) `++ tail`, where `D` is a sequence of
-complete top-level fields — all fields of the truncated tape that end inside the common token
-prefix of `C19_text_tape_common_prefix_partial` — and `tail'`, `tail` are again regular bodies.
-The first field of `tail'` (if any) is the one that reaches beyond the common prefix, i.e. the
-field being cut or the one whose last token may still change.
-Missing for the full statement: what lies behind that field in `tail'`.  It need not be the last
-field: for `a=b [[x] v]` cut at its end the split point is in front of `[[` (the one remaining
-iteration consumes the rest), so `a=b` is the field reaching beyond the common prefix (its `b`
-could still become a header) and `[[x] v]` is completed behind it — both also occur in the full
-tape.  Closing the gap needs the comparison of the LAST iterations (at most three, fewer than two
-bytes of lookahead after the first) of the truncated run with the full run on the lexeme being
-cut, state by state; the `tcut` correspondence op and its oracle cover it on the real code.
--/
-theorem C19_text_tape_fields_partial (d : Bytes) (k : Nat) (T' T : List Tok) (b' b : Bool)
-    (hk : k ≤ d.length) (hbom : hasBom (d.take k) = hasBom d)
-    (h' : parse (d.take k) = .ok T' b') (h : parse d = .ok T b) :
-    ∃ (D tail' tail : List Tok) (x y : Bool) (m : Nat),
+/-- at ANY split point: the complete top-level fields inside the final part of the split state. -/
+theorem CutSplit.fields {d : Bytes} {k : Nat} {T' T : List Tok} {j : Nat} {st0 : St} {d0 : Bytes}
+    (hs : CutSplit d k T' T j st0 d0) :
+    ∃ (D tail' tail : List Tok) (x y : Bool),
+      D = st0.tape.take D.length ∧ D.length ≤ frozenLen st0 ∧
       T' = D ++ tail' ∧ T = D.map (Tok.shift (d.length - k)) ++ tail ∧
       Gr (.body false) D 0 ∧ Gr (.body x) tail' D.length ∧ Gr (.body y) tail D.length ∧
-      T.take m = (T'.take m).map (Tok.shift (d.length - k)) ∧ D.length ≤ m ∧
-      (tail' = [] ∨ tail'.head? = some .mixedContainer ∨ FirstBeyond tail' (m - D.length)) := by
-  obtain ⟨C, m, _, hc1, hc2, _⟩ := C19_text_tape_common_prefix_partial d k T' T b' b hk hbom h' h
+      (tail' = [] ∨ tail'.head? = some .mixedContainer ∨ FirstBeyond tail' (frozenLen st0 - D.length)) := by
+  obtain ⟨hc1, hc2⟩ := hs.common_prefix
+  obtain ⟨hp', hp⟩ := C19_text_tape_split_pins hs
+  generalize frozenLen st0 = m at hc1 hc2 ⊢
   have hcom : T.take m = (T'.take m).map (Tok.shift (d.length - k)) := by rw [hc1, hc2]
-  obtain ⟨x, hx⟩ := parse_gr _ T' b' h'
-  obtain ⟨y, hy⟩ := parse_gr _ T b h
+  obtain ⟨x, hx⟩ := parse_gr _ T' _ hp'
+  obtain ⟨y, hy⟩ := parse_gr _ T _ hp
   obtain ⟨D, tail', rfl, hD, htail', hlen, hlast⟩ := hx.split x rfl m
-  -- `D` (shifted) is a prefix of the full tape
   have hDT : T.take D.length = D.map (Tok.shift (d.length - k)) := by
     have h1 : (T.take m).take D.length =
         (((D ++ tail').take m).take D.length).map (Tok.shift (d.length - k)) := by
@@ -217,63 +261,136 @@ theorem C19_text_tape_fields_partial (d : Bytes) (k : Nat) (T' T : List Tok) (b'
     rfl
   have hTsplit : T = D.map (Tok.shift (d.length - k)) ++ T.drop D.length := by
     rw [← hDT, List.take_append_drop]
-  refine ⟨D, tail', T.drop D.length, x, y, m, rfl, hTsplit, hD, ?_, ?_, hcom, hlen, hlast⟩
+  have hDC : D = st0.tape.take D.length := by
+    have h1 : ((D ++ tail').take m).take D.length = (st0.tape.take m).take D.length := by rw [hc1]
+    rw [List.take_take, List.take_take, Nat.min_eq_left hlen, List.take_left' rfl] at h1
+    exact h1
+  refine ⟨D, tail', T.drop D.length, x, y, hDC, hlen, rfl, hTsplit, hD, ?_, ?_, hlast⟩
   · simpa using htail'
   · have := (hD.shift (d.length - k)).uncons_prefix rfl y (T.drop D.length) (by rw [← hTsplit]; exact hy)
     simpa using this
 
-/-- the hypotheses are satisfiable (`a=b cd=e` cut after `a=b`, see the example above); the field
-structure of the truncated tape: `D = [a, b]`. -/
+/-- C19 (text tape), the common prefix, ALL inputs and ALL cuts.  With `C` the tape the truncated
+run AND the full run (positions shifted) have after the same `j` iterations (`CutSplit`): the final
+tokens of `C` — all but the last one at the top level, everything in front of the open top-level
+container otherwise; `frozenLen` is a function of the state — are a prefix of the truncated tape and
+(shifted) of the full tape; the truncated tape has at most six tokens behind `C`, and `C` is not longer
+than the full tape. -/
+theorem C19_text_tape_common_prefix (d : Bytes) (k : Nat) (T' T : List Tok) (b' b : Bool)
+    (hk : k ≤ d.length) (hbom : hasBom (d.take k) = hasBom d)
+    (h' : parse (d.take k) = .ok T' b') (h : parse d = .ok T b) :
+    ∃ (j : Nat) (st0 : St) (d0 : Bytes), CutSplit d k T' T j st0 d0 ∧
+      T'.take (frozenLen st0) = st0.tape.take (frozenLen st0) ∧
+      T.take (frozenLen st0) = (st0.tape.take (frozenLen st0)).map (Tok.shift (d.length - k)) ∧
+      st0.tape.length ≤ T'.length ∧ st0.tape.length ≤ T.length ∧ T'.length ≤ st0.tape.length + 6 := by
+  obtain ⟨j, st0, d0, hs⟩ := C19_text_tape_split d k T' T b' b hk hbom h' h
+  obtain ⟨t1, t2, t3, _⟩ := hs.tail
+  exact ⟨j, st0, d0, hs, hs.common_prefix.1, hs.common_prefix.2, t1, t2, t3⟩
+
+/-- the hypotheses are satisfiable, an instance on a real cut: `a=b cd=e` cut after `a=b` (both
+parses succeed, no BOM). -/
+example :
+    let d : Bytes := [97, 61, 98, 32, 99, 100, 61, 101]
+    let T' : List Tok := [.unquoted ⟨3, [97]⟩, .unquoted ⟨1, [98]⟩]
+    let T : List Tok := [.unquoted ⟨8, [97]⟩, .unquoted ⟨6, [98]⟩, .unquoted ⟨4, [99, 100]⟩, .unquoted ⟨1, [101]⟩]
+    ∃ (j : Nat) (st0 : St) (d0 : Bytes), CutSplit d 3 T' T j st0 d0 ∧
+      T'.take (frozenLen st0) = st0.tape.take (frozenLen st0) ∧
+      T.take (frozenLen st0) = (st0.tape.take (frozenLen st0)).map (Tok.shift (d.length - 3)) ∧
+      st0.tape.length ≤ T'.length ∧ st0.tape.length ≤ T.length ∧ T'.length ≤ st0.tape.length + 6 :=
+  C19_text_tape_common_prefix _ 3 _ _ false false (by decide) (by decide +kernel) (by decide +kernel)
+    (by decide +kernel)
+
+/-- NON-instance: the conclusion is not satisfiable by unrelated parses.  For `d = "c=d"`, `k = 3`
+(so the truncated input is `d` itself) and `T'` := the tape of `"a=b"`, `T` := the tape of `"c=d"`
+— two successful, unrelated parses — the conclusion of `C19_text_tape_common_prefix` is FALSE. -/
+example :
+    let d : Bytes := [99, 61, 100]
+    let T' : List Tok := [.unquoted ⟨3, [97]⟩, .unquoted ⟨1, [98]⟩]
+    let T : List Tok := [.unquoted ⟨3, [99]⟩, .unquoted ⟨1, [100]⟩]
+    parse [97, 61, 98] = .ok T' false ∧ parse d = .ok T false ∧
+    ¬ ∃ (j : Nat) (st0 : St) (d0 : Bytes), CutSplit d 3 T' T j st0 d0 ∧
+      T'.take (frozenLen st0) = st0.tape.take (frozenLen st0) ∧
+      T.take (frozenLen st0) = (st0.tape.take (frozenLen st0)).map (Tok.shift (d.length - 3)) ∧
+      st0.tape.length ≤ T'.length ∧ st0.tape.length ≤ T.length ∧ T'.length ≤ st0.tape.length + 6 := by
+  refine ⟨by decide +kernel, by decide +kernel, ?_⟩
+  rintro ⟨j, st0, d0, hs, _⟩
+  exact absurd (C19_text_tape_split_pins hs).1 (by decide +kernel)
+
+/-
+C19 (text tape), field level.  Full statement: every completed top-level field of the truncated
+parse's tape equals the full parse's, and at most the last field differs or is absent.
+
+Proved for ALL inputs and ALL cuts, about the pinned split state `st0` (tape `C`, the tape both runs
+have after the same `j` iterations): both result tapes are regular bodies (`parse_gr`); the truncated
+tape is `D ++ tail'` and the full tape is `D` (positions shifted) `++ tail`, where `D` is a sequence of
+complete top-level fields which is a prefix of `C` — namely ALL complete top-level fields of the
+truncated tape that end inside the final part of `C` (`frozenLen st0`: at the top level all of `C`
+but its last token): the field of `tail'` that follows `D` reaches beyond that point (`FirstBeyond`),
+so `D` is determined by `C` (`Gr.val_det`), and `D = []` only if the first field already reaches
+beyond it.  `tail'`, `tail` are again regular bodies.
+Missing for the full statement (hence `_partial`):
+(1) what lies behind the field that follows `D` in `tail'`.  It need not be the last field: for
+    `a=b [[x] v]` cut at its end the split point is in front of `[[` (the one remaining iteration
+    consumes the rest), so `a=b` is the field reaching beyond the final part (its `b` could still
+    become a header) and `[[x] v]` is completed behind it — both also occur in the full tape.
+(2) inside a still open top-level container (`a={ … ` cut inside) `frozenLen` stops at that
+    container, so the fields completed INSIDE it are not covered here; tokenwise they are covered by
+    `C19_text_tape_tail_sharp` (every settled token of `C`).
+Closing (1) needs the comparison of the LAST iterations (at most three, fewer than two bytes of
+lookahead after the first) of the truncated run with the full run on the lexeme being cut, state
+by state; it is done for cuts on lexeme boundaries (`C19_text_tape_boundary_cut`); for the other cuts
+the `tcut` correspondence op and its oracle cover it on the real code.
+-/
+theorem C19_text_tape_fields_partial (d : Bytes) (k : Nat) (T' T : List Tok) (b' b : Bool)
+    (hk : k ≤ d.length) (hbom : hasBom (d.take k) = hasBom d)
+    (h' : parse (d.take k) = .ok T' b') (h : parse d = .ok T b) :
+    ∃ (j : Nat) (st0 : St) (d0 : Bytes), CutSplit d k T' T j st0 d0 ∧
+      ∃ (D tail' tail : List Tok) (x y : Bool),
+        D = st0.tape.take D.length ∧ D.length ≤ frozenLen st0 ∧
+        T' = D ++ tail' ∧ T = D.map (Tok.shift (d.length - k)) ++ tail ∧
+        Gr (.body false) D 0 ∧ Gr (.body x) tail' D.length ∧ Gr (.body y) tail D.length ∧
+        (tail' = [] ∨ tail'.head? = some .mixedContainer ∨
+          FirstBeyond tail' (frozenLen st0 - D.length)) := by
+  obtain ⟨j, st0, d0, hs⟩ := C19_text_tape_split d k T' T b' b hk hbom h' h
+  exact ⟨j, st0, d0, hs, hs.fields⟩
+
+/-- the hypotheses are satisfiable, an instance on a real cut: `a=b c=d e=f` cut after `a=b c=d e`
+does not parse, cut after `a=b c=d` it does. -/
+example :
+    let d : Bytes := [97, 61, 98, 32, 99, 61, 100, 32, 101, 61, 102]
+    let T' : List Tok := [.unquoted ⟨7, [97]⟩, .unquoted ⟨5, [98]⟩, .unquoted ⟨3, [99]⟩, .unquoted ⟨1, [100]⟩]
+    let T : List Tok := [.unquoted ⟨11, [97]⟩, .unquoted ⟨9, [98]⟩, .unquoted ⟨7, [99]⟩, .unquoted ⟨5, [100]⟩,
+      .unquoted ⟨3, [101]⟩, .unquoted ⟨1, [102]⟩]
+    ∃ (j : Nat) (st0 : St) (d0 : Bytes), CutSplit d 7 T' T j st0 d0 ∧
+      ∃ (D tail' tail : List Tok) (x y : Bool),
+        D = st0.tape.take D.length ∧ D.length ≤ frozenLen st0 ∧
+        T' = D ++ tail' ∧ T = D.map (Tok.shift (d.length - 7)) ++ tail ∧
+        Gr (.body false) D 0 ∧ Gr (.body x) tail' D.length ∧ Gr (.body y) tail D.length ∧
+        (tail' = [] ∨ tail'.head? = some .mixedContainer ∨
+          FirstBeyond tail' (frozenLen st0 - D.length)) :=
+  C19_text_tape_fields_partial _ 7 _ _ false false (by decide) (by decide +kernel) (by decide +kernel)
+    (by decide +kernel)
+
+/-- the field structure of a truncated tape: `D = [a, b]` is a regular body. -/
 example : Gr (.body false) [.unquoted ⟨3, [97]⟩, .unquoted ⟨1, [98]⟩] 0 :=
   Gr.bfield (ops := []) (v := [.unquoted ⟨1, [98]⟩]) (rest := []) rfl (.inl rfl) (Gr.scal rfl) Gr.bnil
 
-/-- the split point of a cut: the two parses go through the same iterations up to a state `st0`
-(tape `C`), from which the truncated parse has fewer than two bytes of lookahead left after its
-next iteration; both finish from there. -/
-theorem cut_split (d : Bytes) (k : Nat) (T' T : List Tok) (b' b : Bool)
-    (hk : k ≤ d.length) (hbom : hasBom (d.take k) = hasBom d)
-    (h' : parse (d.take k) = .ok T' b') (h : parse d = .ok T b) :
-    ∃ (st0 : St) (d0 : Bytes) (fuel0 fuel1 : Nat) (bp bd : Bool), StInv st0 ∧
-      Short (d.take k).length st0 d0 ∧
-      run (d.take k).length fuel0 st0 d0 = .ok T' bp ∧
-      run d.length fuel1 (st0.shift (d.length - k)) (d0 ++ d.drop k) = .ok T bd := by
-  have hq : (d.drop k).length = d.length - k := by simp
-  unfold parse at h' h
-  simp only at h' h
-  rw [hbom] at h'
-  generalize hdp : (if hasBom d = true then List.drop 3 (d.take k) else d.take k) = dp at h'
-  generalize hdd : (if hasBom d = true then List.drop 3 d else d) = dd at h
-  have hsplit : dd = dp ++ d.drop k := by
-    rw [← hdp, ← hdd]
-    split
-    · next hb =>
-      have hk3 : 3 ≤ k := by
-        rcases Nat.lt_or_ge k 3 with hlt | hge
-        · exfalso
-          have : hasBom (d.take k) = false := by
-            simp only [hasBom, beq_eq_false_iff_ne, ne_eq]
-            intro h0
-            have := congrArg List.length h0
-            simp at this; omega
-          rw [hbom, hb] at this; simp at this
-        · exact hge
-      rw [← List.drop_append_of_le_length (by simp; omega), List.take_append_drop]
-    · exact (List.take_append_drop k d).symm
-  generalize hrp : run (d.take k).length (fuelFor dp) St.init dp = rp at h'
-  generalize hrd : run d.length (fuelFor dd) St.init dd = rd at h
-  have hrp' : ∃ bp, rp = .ok T' bp := by cases rp <;> simp [Res.withBom] at h'; exact ⟨_, by rw [h'.1]⟩
-  have hrd' : ∃ bd, rd = .ok T bd := by cases rd <;> simp [Res.withBom] at h; exact ⟨_, by rw [h.1]⟩
-  obtain ⟨bp, rfl⟩ := hrp'
-  obtain ⟨bd, rfl⟩ := hrd'
-  obtain ⟨j, st0, d0, fuel0, hinv0, hrun0, hshort, hlock⟩ :=
-    run_lockstep (d.take k).length d.length (d.drop k) (fuelFor dp) St.init dp _ _ hrp StInv.init
-  have hD : run d.length (fuelFor dd) (st0.shift (d.drop k).length) (d0 ++ d.drop k) = .ok T bd := by
-    have := hlock (fuelFor dd)
-    rw [← hsplit, show St.init.shift (d.drop k).length = St.init from rfl,
-      run_more_fuel _ _ j _ _ _ hrd (by simp)] at this
-    exact this.symm
-  rw [hq] at hD
-  exact ⟨st0, d0, fuel0, fuelFor dd, bp, bd, hinv0, hshort, hrun0, hD⟩
+/-- NON-instance: for the unrelated successful parses of `"a=b"` and `"c=d"` (`d = "c=d"`, `k = 3`) the
+conclusion of `C19_text_tape_fields_partial` is FALSE (the old statement was satisfied by `D = []`). -/
+example :
+    let d : Bytes := [99, 61, 100]
+    let T' : List Tok := [.unquoted ⟨3, [97]⟩, .unquoted ⟨1, [98]⟩]
+    let T : List Tok := [.unquoted ⟨3, [99]⟩, .unquoted ⟨1, [100]⟩]
+    ¬ ∃ (j : Nat) (st0 : St) (d0 : Bytes), CutSplit d 3 T' T j st0 d0 ∧
+      ∃ (D tail' tail : List Tok) (x y : Bool),
+        D = st0.tape.take D.length ∧ D.length ≤ frozenLen st0 ∧
+        T' = D ++ tail' ∧ T = D.map (Tok.shift (d.length - 3)) ++ tail ∧
+        Gr (.body false) D 0 ∧ Gr (.body x) tail' D.length ∧ Gr (.body y) tail D.length ∧
+        (tail' = [] ∨ tail'.head? = some .mixedContainer ∨
+          FirstBeyond tail' (frozenLen st0 - D.length)) := by
+  intro d T' T
+  rintro ⟨j, st0, d0, hs, _⟩
+  exact absurd (C19_text_tape_split_pins hs).1 (by decide +kernel)
 
 /-
 C19 (text tape), the tail behind the split point.  Sketch of the full statement: every token of
@@ -281,46 +398,73 @@ the truncated tape beyond the common fields is either (a) a token of the full ta
 position (modulo the `end` pointers of containers closed by the EOF tolerance) or (b) stems from
 the one lexeme the cut shortened.
 
-Proved for ALL inputs and ALL cuts (`C` = the tape at the split point, where the two parses stop
-running in lockstep):
+Proved for ALL inputs and ALL cuts, about the pinned split state (`C` = `st0.tape`, the tape BOTH
+runs have after the same `j` iterations, `CutSplit`):
 (1) pointwise (a): every token of `C` except its last one and the containers still open at the
     split point is the same token of the truncated tape and (positions shifted) of the full tape —
     also INSIDE the still open top-level container, which the prefix statements above do not reach;
-(2) the tail is short: the truncated tape has at most 13 tokens behind `C` (3 per remaining
-    iteration, at most four of them, and the `End` of the EOF tolerance) and `C` is not longer than
-    the full tape, so the truncated tape never exceeds the full one by more than that;
+(2) the tail is short: the truncated tape has at most SIX tokens behind `C` (three in the iteration
+    that leaves fewer than two bytes, at most two for the last byte — KeyValueSeparator may insert
+    `MixedContainer` and hand the byte on — and the `End` of the EOF tolerance; the bound is attained)
+    and `C` is not longer than the full tape;
 (3) nothing is fabricated: every scalar of the truncated tape carries exactly the bytes the FULL
     input has at the scalar's offset, inside the truncated part.
-Sharper since: `C19_text_tape_tail_sharp` (at most SIX tail tokens, attained) and
-`C19_text_tape_boundary_cut` (cuts on lexeme boundaries: the truncated tape IS the full run's tape at
-that iteration, plus the EOF tolerance — only cases (a) and (c)).
+`C19_text_tape_boundary_cut` sharpens this for cuts on lexeme boundaries: the truncated tape IS the
+full run's tape at that iteration, plus the EOF tolerance — only cases (a) and (c).
 Still missing for the full statement: for cuts INSIDE a lexeme (or where the continuation starts
 with `=`, `[` or a byte that is not a boundary) the classification of the at most six tail tokens
 into (a) and (b) — the comparison of the last iterations with the full run's on the shortened
 lexeme (its lexeme-level part is `C19_scalar_not_merged` / `C19_quote_not_extended`) — and what
 happens to the containers open at the split point (they keep their index and kind; the `end` / flag
 fields are written when they are closed).  With it `C19_text_tape_fields_partial` would lose its
-`_partial`.
+`_partial`.  (The earlier `C19_text_tape_tail_partial`, bound 13 and an unpinned `C`, is superseded
+and removed.)
 -/
-theorem C19_text_tape_tail_partial (d : Bytes) (k : Nat) (T' T : List Tok) (b' b : Bool)
+theorem C19_text_tape_tail_sharp (d : Bytes) (k : Nat) (T' T : List Tok) (b' b : Bool)
     (hk : k ≤ d.length) (hbom : hasBom (d.take k) = hasBom d)
     (h' : parse (d.take k) = .ok T' b') (h : parse d = .ok T b) :
-    ∃ C : List Tok,
-      C.length ≤ T'.length ∧ C.length ≤ T.length ∧ T'.length ≤ C.length + 13 ∧
-      (∀ i, i + 1 < C.length → NotOpen C i →
-        T'[i]? = C[i]? ∧ T[i]? = (C[i]?).map (Tok.shift (d.length - k))) ∧
+    ∃ (j : Nat) (st0 : St) (d0 : Bytes), CutSplit d k T' T j st0 d0 ∧
+      st0.tape.length ≤ T'.length ∧ st0.tape.length ≤ T.length ∧ T'.length ≤ st0.tape.length + 6 ∧
+      (∀ i, i + 1 < st0.tape.length → NotOpen st0.tape i →
+        T'[i]? = st0.tape[i]? ∧ T[i]? = (st0.tape[i]?).map (Tok.shift (d.length - k))) ∧
       (∀ s ∈ slices T', s.bytes.length ≤ s.tail ∧ s.tail ≤ k ∧
         s.bytes = (d.drop (k - s.tail)).take s.bytes.length) := by
-  obtain ⟨st0, d0, fuel0, fuel1, bp, bd, hinv0, hshort, hrun0, hD⟩ := cut_split d k T' T b' b hk hbom h' h
-  refine ⟨st0.tape, run_len_le _ _ _ _ _ _ hinv0 hrun0, ?_, short_tail_len hshort _ _ _ hrun0, ?_,
-    scalars_from_full d k hk T' b' h'⟩
-  · have := run_len_le _ _ _ _ _ _ (hinv0.shift _) hD
-    simpa [St.shift_tape] using this
-  · intro i hi hn
-    refine ⟨run_settled _ _ _ _ _ _ i hinv0 hi hn hrun0, ?_⟩
-    have := run_settled _ _ _ _ _ _ i (hinv0.shift (d.length - k)) (by simpa [St.shift_tape] using hi)
-      (by simpa [St.shift_tape] using hn.shift (d.length - k)) hD
-    rw [this, St.shift_tape, getElem?_shift]
+  obtain ⟨j, st0, d0, hs⟩ := C19_text_tape_split d k T' T b' b hk hbom h' h
+  obtain ⟨t1, t2, t3, t4⟩ := hs.tail
+  exact ⟨j, st0, d0, hs, t1, t2, t3, t4, scalars_from_full d k hk T' b' h'⟩
+
+/-- the hypotheses are satisfiable, an instance on a real cut: the EOF tolerance, `a={b=c d=e}` cut
+after `a={b=c` (tapes: see the example below). -/
+example :
+    let d : Bytes := [97, 61, 123, 98, 61, 99, 32, 100, 61, 101, 125]
+    let T' : List Tok := [.unquoted ⟨6, [97]⟩, .object 4 false, .unquoted ⟨3, [98]⟩, .unquoted ⟨1, [99]⟩, .endTok 1]
+    let T : List Tok := [.unquoted ⟨11, [97]⟩, .object 6 false, .unquoted ⟨8, [98]⟩, .unquoted ⟨6, [99]⟩,
+        .unquoted ⟨4, [100]⟩, .unquoted ⟨2, [101]⟩, .endTok 1]
+    ∃ (j : Nat) (st0 : St) (d0 : Bytes), CutSplit d 6 T' T j st0 d0 ∧
+      st0.tape.length ≤ T'.length ∧ st0.tape.length ≤ T.length ∧ T'.length ≤ st0.tape.length + 6 ∧
+      (∀ i, i + 1 < st0.tape.length → NotOpen st0.tape i →
+        T'[i]? = st0.tape[i]? ∧ T[i]? = (st0.tape[i]?).map (Tok.shift (d.length - 6))) ∧
+      (∀ s ∈ slices T', s.bytes.length ≤ s.tail ∧ s.tail ≤ 6 ∧
+        s.bytes = (d.drop (6 - s.tail)).take s.bytes.length) :=
+  C19_text_tape_tail_sharp _ 6 _ _ false false (by decide) (by decide +kernel) (by decide +kernel)
+    (by decide +kernel)
+
+/-- NON-instance: for the unrelated successful parses of `"a=b"` and `"c=d"` (`d = "c=d"`, `k = 3`) the
+conclusion of `C19_text_tape_tail_sharp` is FALSE (the old statement was satisfied by a dummy `C` of
+open containers). -/
+example :
+    let d : Bytes := [99, 61, 100]
+    let T' : List Tok := [.unquoted ⟨3, [97]⟩, .unquoted ⟨1, [98]⟩]
+    let T : List Tok := [.unquoted ⟨3, [99]⟩, .unquoted ⟨1, [100]⟩]
+    ¬ ∃ (j : Nat) (st0 : St) (d0 : Bytes), CutSplit d 3 T' T j st0 d0 ∧
+      st0.tape.length ≤ T'.length ∧ st0.tape.length ≤ T.length ∧ T'.length ≤ st0.tape.length + 6 ∧
+      (∀ i, i + 1 < st0.tape.length → NotOpen st0.tape i →
+        T'[i]? = st0.tape[i]? ∧ T[i]? = (st0.tape[i]?).map (Tok.shift (d.length - 3))) ∧
+      (∀ s ∈ slices T', s.bytes.length ≤ s.tail ∧ s.tail ≤ 3 ∧
+        s.bytes = (d.drop (3 - s.tail)).take s.bytes.length) := by
+  intro d T' T
+  rintro ⟨j, st0, d0, hs, _⟩
+  exact absurd (C19_text_tape_split_pins hs).1 (by decide +kernel)
 
 /-- cut inside a scalar (`a=bc d=e` after `a=b`): the truncated scalar `b` is a proper prefix of the
 full scalar `bc` at the same offset -/
@@ -361,31 +505,6 @@ example :
       .ok [.unquoted ⟨11, [97]⟩, .object 6 false, .unquoted ⟨8, [98]⟩, .unquoted ⟨6, [99]⟩,
         .unquoted ⟨4, [100]⟩, .unquoted ⟨2, [101]⟩, .endTok 1] false := by
   decide +kernel
-
-/-- C19 (text tape), the sharp tail bound for ALL inputs and ALL cuts: behind the tape `C` of the
-split point the truncated tape has at most SIX tokens (three in the iteration that leaves fewer than
-two bytes, at most two for the last byte — KeyValueSeparator may insert `MixedContainer` and hand
-the byte on — and the `End` of the EOF tolerance), and `C` is not longer than the full tape; the
-common tokens and the scalar payloads are as in `C19_text_tape_tail_partial`. -/
-theorem C19_text_tape_tail_sharp (d : Bytes) (k : Nat) (T' T : List Tok) (b' b : Bool)
-    (hk : k ≤ d.length) (hbom : hasBom (d.take k) = hasBom d)
-    (h' : parse (d.take k) = .ok T' b') (h : parse d = .ok T b) :
-    ∃ C : List Tok,
-      C.length ≤ T'.length ∧ C.length ≤ T.length ∧ T'.length ≤ C.length + 6 ∧
-      (∀ i, i + 1 < C.length → NotOpen C i →
-        T'[i]? = C[i]? ∧ T[i]? = (C[i]?).map (Tok.shift (d.length - k))) ∧
-      (∀ s ∈ slices T', s.bytes.length ≤ s.tail ∧ s.tail ≤ k ∧
-        s.bytes = (d.drop (k - s.tail)).take s.bytes.length) := by
-  obtain ⟨st0, d0, fuel0, fuel1, bp, bd, hinv0, hshort, hrun0, hD⟩ := cut_split d k T' T b' b hk hbom h' h
-  refine ⟨st0.tape, run_len_le _ _ _ _ _ _ hinv0 hrun0, ?_, short_tail_sharp hshort _ _ _ hrun0, ?_,
-    scalars_from_full d k hk T' b' h'⟩
-  · have := run_len_le _ _ _ _ _ _ (hinv0.shift _) hD
-    simpa [St.shift_tape] using this
-  · intro i hi hn
-    refine ⟨run_settled _ _ _ _ _ _ i hinv0 hi hn hrun0, ?_⟩
-    have := run_settled _ _ _ _ _ _ i (hinv0.shift (d.length - k)) (by simpa [St.shift_tape] using hi)
-      (by simpa [St.shift_tape] using hn.shift (d.length - k)) hD
-    rw [this, St.shift_tape, getElem?_shift]
 
 /-- the bound is attained: `a={[[x] k }` (cut = whole input) — the split point is in front of `[[`
 (tape `a, Object`), behind it come `Parameter, Object, MixedContainer, Unquoted, End, End` -/
